@@ -36,7 +36,7 @@ Record stask := mkSTask { sk_kind : skind; sk_pc : N; sk_pending : N; sk_done : 
 Record sworld := mkSWorld {
   s_now : N; s_ready : list (option N * shandle); s_timers : list (N * N * shandle); s_next : N;
   s_svc : N; s_major : N; s_eg : N; s_interval : N; s_resolve : N;
-  s_eps : list ep; s_has_clients : bool; s_cy_waiting : bool; s_cy_task : option N;
+  s_eps : list (ep * N); s_has_clients : bool; s_cy_waiting : bool; s_cy_task : option N;
   s_values : list (N * bytes); s_sess : Session.sess; s_tasks : list (N * stask);
   s_out : list (N * sevent) }.
 
@@ -49,7 +49,7 @@ Definition sw_timers (v : list (N * N * shandle)) (n : N) (w : sworld) : sworld 
 Definition sw_now (v : N) (w : sworld) : sworld :=
   mkSWorld v (s_ready w) (s_timers w) (s_next w) (s_svc w) (s_major w) (s_eg w) (s_interval w) (s_resolve w)
            (s_eps w) (s_has_clients w) (s_cy_waiting w) (s_cy_task w) (s_values w) (s_sess w) (s_tasks w) (s_out w).
-Definition sw_group (eps : list ep) (hc cw : bool) (w : sworld) : sworld :=
+Definition sw_group (eps : list (ep * N)) (hc cw : bool) (w : sworld) : sworld :=
   mkSWorld (s_now w) (s_ready w) (s_timers w) (s_next w) (s_svc w) (s_major w) (s_eg w) (s_interval w) (s_resolve w)
            eps hc cw (s_cy_task w) (s_values w) (s_sess w) (s_tasks w) (s_out w).
 Definition sw_values (v : list (N * bytes)) (w : sworld) : sworld :=
@@ -139,7 +139,7 @@ Definition sfinish (t : N) (w : sworld) : sworld :=
 
 (* _notify_all: snapshot the endpoint set, one child task per endpoint; with no endpoints gather() is already done *)
 Definition start_round (t : N) (k : skind) (spec : evspec) (pc_wait : N) (w : sworld) : sworld * bool :=
-  match s_eps w with
+  match map fst (s_eps w) with
   | [] => (w, false)
   | eps =>
       let w1 := fold_left (fun acc e => snd (snew (KSingle e spec (Some t)) acc)) eps w in
@@ -187,10 +187,13 @@ Definition child_done (parent : N) (w : sworld) : sworld :=
   | None => w
   end.
 
-(* a Python set of endpoint options iterates in hash order: the model keeps insertion order and the
-   canonicaliser orders the transmissions of one instant (see harness) *)
+(* subscribed_endpoints is a Counter (dict endpoint -> number of live subscriptions naming it); it iterates its
+   keys in insertion order.  Transmissions of one instant are ordered by the canonicaliser (see harness). *)
 Definition eg_subscribe (e : ep) (w : sworld) : sworld :=
-  let eps := if existsb (ep_eqb e) (s_eps w) then s_eps w else s_eps w ++ [e] in
+  let eps := match aget ep_eqb e (s_eps w) with
+             | Some n => aset ep_eqb e (n + 1) (s_eps w)
+             | None => s_eps w ++ [(e, 1)]
+             end in
   let wake := s_cy_waiting w && negb (s_has_clients w) in
   let w1 := sw_group eps true (if wake then false else s_cy_waiting w) w in
   let w2 := match s_cy_task w1 with
@@ -200,10 +203,12 @@ Definition eg_subscribe (e : ep) (w : sworld) : sworld :=
   snd (snew (KSingle e EvAll None) w2).
 
 Definition eg_unsubscribe (e : ep) (w : sworld) : sworld * bool :=
-  if existsb (ep_eqb e) (s_eps w) then
-    let eps := filter (fun x => negb (ep_eqb e x)) (s_eps w) in
-    (sw_group eps (match eps with [] => false | _ => s_has_clients w end) (s_cy_waiting w) w, true)
-  else (w, false).
+  match aget ep_eqb e (s_eps w) with
+  | Some n =>
+      let eps := if n <=? 1 then adel ep_eqb e (s_eps w) else aset ep_eqb e (n - 1) (s_eps w) in
+      (sw_group eps (match eps with [] => false | _ => s_has_clients w end) (s_cy_waiting w) w, true)
+  | None => (w, false)
+  end.
 
 Definition exec_sapi (c : sapi) (w : sworld) : sworld :=
   match c with
@@ -339,4 +344,4 @@ Definition srun_op (arg : sexp) : option sexp :=
   let? sc := d_sscenario arg in
   let '(w, completed) := srun_scenario sc in
   Some (L [slist (fun p => L [A (fst p); s_sevent (snd p)]) (rev (s_out w)); sbool completed;
-           L [slist (fun e => L [sbool (ep_v6 e); A (ep_n e); A (ep_port e)]) (s_eps w); sbool (s_has_clients w)]]).
+           L [slist (fun e => L [sbool (ep_v6 e); A (ep_n e); A (ep_port e)]) (map fst (s_eps w)); sbool (s_has_clients w)]]).
